@@ -169,6 +169,7 @@ func pubsubC06(c *Ctx) {
 		} else {
 			it := &fq{c: c, fn: its[0], name: an.FuncName(its[0])}
 			wait := P.CallsTo(it.fn, "(*ChanPubSub).Wait")[0]
+			receivedIsAcknowledged(c, it)
 			yields := dynCallsOfParam(c, it.fn, it.fn.Params[0])
 			if it.need(yields, "PATH", "yield(v)") {
 				it.add("PATH", "a received value is acknowledged before it is yielded", P.Before(it.fn, an.Is(wait), yields[0]), "Wait dominates yield", yields[0])
@@ -468,6 +469,7 @@ func pubsubC07(c *Ctx) {
 		its := closuresOf(q.fn, func(f *ssa.Function) bool { return len(P.CallsTo(f, "(*ChanPubSub).Wait")) > 0 })
 		if len(its) == 1 {
 			it := &fq{c: c, fn: its[0], name: an.FuncName(its[0])}
+			receivedIsAcknowledged(c, it)
 			// calls of stop(): dynamic calls whose callee is a load of the stop cell
 			stops := an.AllInstrs(it.fn, func(in ssa.Instruction) bool {
 				call, ok := in.(*ssa.Call)
@@ -1096,3 +1098,46 @@ func casterAddConds(c *Ctx, q *fq, adds []ssa.Instruction) {
 }
 
 func linConstMinus(c int64, l an.Lin) an.Lin { return l.Neg().AddC(c) }
+
+// receivedIsAcknowledged: in the SubscribeContext iterator every value received from the channel is
+// followed by Wait on every path (contract: receive, then Wait) - returning, panicking aside, or selecting
+// again without Wait leaves the Send waiting for a pong for ever.
+func receivedIsAcknowledged(c *Ctx, it *fq) {
+	P := c.P
+	waits := P.CallsTo(it.fn, "(*ChanPubSub).Wait")
+	sels := an.AllInstrs(it.fn, func(in ssa.Instruction) bool {
+		s, ok := in.(*ssa.Select)
+		if !ok {
+			return false
+		}
+		for _, st := range s.States {
+			if an.IsLoadOfField(st.Chan, "ChanCaster.C") {
+				return true
+			}
+		}
+		return false
+	})
+	if len(waits) == 0 || len(sels) != 1 {
+		it.undecided("PATH", "a received value is always acknowledged", "Wait call or the receiving select not found")
+		return
+	}
+	sel := sels[0].(*ssa.Select)
+	okx := resultOf2(sel, 1)
+	if okx == nil {
+		it.undecided("PATH", "a received value is always acknowledged", "recvOk of the select is not used")
+		return
+	}
+	ifs, negs := P.IfsOn(it.fn, func(cond ssa.Value) bool { return cond == okx })
+	if len(ifs) != 1 {
+		it.undecided("PATH", "a received value is always acknowledged", "recvOk is not tested exactly once")
+		return
+	}
+	ts := 0
+	if negs[0] {
+		ts = 1
+	}
+	exit := func(in ssa.Instruction) bool { return an.IsReturn(in) || in == ssa.Instruction(sel) }
+	skipped := P.PathExists(it.fn, ifs[0], exit, an.In(waits), cutEdge(ifs[0], 1-ts))
+	it.add("PATH", "a received value is always acknowledged", !skipped,
+		pickS(!skipped, "from recvOk == true every path to a return or to the next select passes Wait()", "after receiving a value the iterator can return (or select again) without calling Wait: the Send that delivered it would wait for that acknowledgement for ever"), ifs[0])
+}
